@@ -168,7 +168,8 @@ example : (specPack { losslessPack with setid := ffIgnore } { defaultDirMeta ⟨
 
 /-- a reject rule of the unpack filter names this entry -/
 def unpackRejects (ff : UnpackFilter) (m : Meta) : Prop :=
-  (ff.setid = ffReject ∧ (if ff.sticky ≠ ffKeep then clearBits m.perms permSticky else m.perms) &&& (permSetuid ||| permSetgid) ≠ 0)
+  (ff.setid = ffReject ∧ m.kind ≠ .symlink ∧
+    (if ff.sticky ≠ ffKeep then clearBits m.perms permSticky else m.perms) &&& (permSetuid ||| permSetgid) ≠ 0)
   ∨ (ff.dev = ffReject ∧ isDevKind m.kind = true)
 
 instance (ff : UnpackFilter) (m : Meta) : Decidable (unpackRejects ff m) := by unfold unpackRejects; infer_instance
@@ -210,6 +211,8 @@ theorem C12_unpack_entry (myUid myGid : Nat) (ff : UnpackFilter) (m : Meta) :
     split <;> simp [p1, p2, p3]
   have hkind : (fSetid ff (fSticky ff (fMtime ff (fGid myGid ff (fUid myUid ff m))))).kind = m.kind := by
     rw [(fSetid_nk _ _).2, (fSticky_nk _ _).2, (fMtime_nk _ _).2, (fGid_nk _ _ _).2, (fUid_nk _ _ _).2]
+  have hkind0 : (fSticky ff (fMtime ff (fGid myGid ff (fUid myUid ff m)))).kind = m.kind := by
+    rw [(fSticky_nk _ _).2, (fMtime_nk _ _).2, (fGid_nk _ _ _).2, (fUid_nk _ _ _).2]
   have hk : ffKeep ≠ ffContext := by decide
   have hspec : fDev ff (fSetid ff (fSticky ff (fMtime ff (fGid myGid ff (fUid myUid ff m))))) = specUnpack myUid myGid ff m := by
     -- field by field
@@ -227,11 +230,19 @@ theorem C12_unpack_entry (myUid myGid : Nat) (ff : UnpackFilter) (m : Meta) :
       intro x; unfold fDev; split <;> simp_all
     rw [d1, i1, s1, m1, g1, u1]
     rfl
-  rw [hperms, hkind, hspec]
+  rw [hperms, hkind, hkind0, hspec]
   unfold unpackRejects
   split
   · rfl
   · exact ite_or_same _ _ _ _
+
+/-- a symlink whose header claims setuid bits offends nothing (no file system gives a symlink a mode of its own, a cache
+    shelf cannot show one): `setid=reject` lets it pass — on a cold cache as on a warm one; a file with the same bits is
+    rejected (tests) -/
+example : applyUnpackFilter 0 0 ⟨true, ffKeep, ffKeep, ffKeep, ffKeep, ffReject, ffKeep⟩ { defaultDirMeta ⟨[0x61], -1⟩ with kind := .symlink, perms := 0o4777 }
+    = .ok { defaultDirMeta ⟨[0x61], -1⟩ with kind := .symlink, perms := 0o4777 } := by decide
+example : applyUnpackFilter 0 0 ⟨true, ffKeep, ffKeep, ffKeep, ffKeep, ffReject, ffKeep⟩ { defaultDirMeta ⟨[0x61], -1⟩ with kind := .file, perms := 0o4777 }
+    = .err .filterRejection := by decide
 
 /-- `uid=mine` / `gid=mine`: the delivered entry carries the ids of the unpacking process — uid from the uid, gid from
     the gid -/
